@@ -247,16 +247,147 @@ func reasonMode(seed uint64, tier, scratch string) {
 		}(i)
 	}
 	wg.Wait()
+	if casesOverride == nil {
+		nw := 4
+		if tier == "thorough" {
+			nw = 40
+		}
+		for i, wc := range watchCases(r, nw) {
+			judgeWatch(wc, filepath.Join(scratch, fmt.Sprintf("watch%d", i)))
+		}
+	}
+}
+
+// ---- the same table in ONE long-lived process (watch mode): Load once, then per round: edit, Reload, Run.
+// The reason of round i must name exactly the parts changed by the edit of round i — nothing kept across Reload
+// (a decoded old environment, a fingerprint) may stand in for what the previous round recorded.
+
+type watchEdit struct {
+	What   string   `json:"what"`
+	File   string   `json:"file"`
+	Old    string   `json:"old"`
+	New    string   `json:"new"`
+	Expect []string `json:"expect"` // empty: nothing may execute
+}
+
+type watchCase struct {
+	Name   string      `json:"name"`
+	Build  string      `json:"build"`
+	Rounds []watchEdit `json:"rounds"`
+}
+
+func watchCases(r *rng, n int) []watchCase {
+	var out []watchCase
+	for i := 0; i < n; i++ {
+		k := 42000 + 10*r.below(500)
+		pre := [][2]string{{"sh", "os"}, {"os", "json"}, {"glob", "path"}}[r.below(3)]
+		uni := [][2]string{{"len", "dir"}, {"str", "repr"}, {"min", "max"}}[r.below(3)]
+		build := fmt.Sprintf("G = %d\ndef h():\n    return %d\n"+reasonTarget+"def t(self, y=%d):\n    v = [%d, G, h(), %s, %s, y]\n    return None\n",
+			k+2, k+3, k+4, k+1, pre[0], uni[0])
+		all := []watchEdit{
+			{"constant in the target's body", "BUILD.dawn", fmt.Sprintf("    v = [%d, G,", k+1), fmt.Sprintf("    v = [%d, G,", k+6), []string{"constant values"}},
+			{"global the target refers to", "BUILD.dawn", fmt.Sprintf("G = %d\n", k+2), fmt.Sprintf("G = %d\n", k+7), []string{"global values"}},
+			{"body of a function the target calls", "BUILD.dawn", fmt.Sprintf("    return %d\n", k+3), fmt.Sprintf("    return %d\n", k+8), []string{"global values"}},
+			{"default parameter value of the target", "BUILD.dawn", fmt.Sprintf("y=%d):", k+4), fmt.Sprintf("y=%d):", k+9), []string{"default parameter values"}},
+			{"predeclared value the target refers to", "BUILD.dawn", fmt.Sprintf("h(), %s,", pre[0]), fmt.Sprintf("h(), %s,", pre[1]), []string{"names", "predeclared values"}},
+			{"universal builtin the target refers to", "BUILD.dawn", fmt.Sprintf(", %s, y]", uni[0]), fmt.Sprintf(", %s, y]", uni[1]), []string{"names", "universal values"}},
+			{"the target's parameter is renamed", "BUILD.dawn", "def t(self, y=", "def t(this, y=", []string{"parameters"}},
+		}
+		// a seeded order, 2 or 3 edits, and a comment-only round somewhere
+		for j := len(all) - 1; j > 0; j-- {
+			x := r.below(j + 1)
+			all[j], all[x] = all[x], all[j]
+		}
+		rounds := append([]watchEdit{}, all[:2+r.below(2)]...)
+		comment := watchEdit{"a comment is added", "BUILD.dawn", "def h():\n", "# a comment\ndef h():\n", nil}
+		at := r.below(len(rounds) + 1)
+		rounds = append(rounds[:at], append([]watchEdit{comment}, rounds[at:]...)...)
+		out = append(out, watchCase{Name: fmt.Sprintf("watch-%d", i), Build: build, Rounds: rounds})
+	}
+	return out
+}
+
+func watchViolation(wc watchCase, round int, detail string) {
+	b, _ := json.Marshal(map[string]any{"kind": "wrong-reason", "feature": "watch mode", "key": "wrong-reason:watch", "target": "//:t",
+		"detail": detail, "input": map[string]any{"stream": "env.reason", "watch": wc, "round": round}})
+	outMu.Lock()
+	stats["violations"]++
+	fmt.Fprintf(out, "V\t%s\n", b)
+	outMu.Unlock()
+}
+
+func judgeWatch(wc watchCase, dir string) {
+	os.RemoveAll(dir)
+	defer os.RemoveAll(dir)
+	writeFiles(dir, map[string]string{"dawn.toml": "name = \"p\"\n", "BUILD.dawn": wc.Build})
+	script := filepath.Join(dir, "watch-script.json")
+	sb, _ := json.Marshal(wc.Rounds)
+	os.WriteFile(script, sb, 0644)
+	w := runChild(dir, "watch:"+script, "fwd", false, false, nil, 60*time.Second)
+	count("child_runs", 1)
+	count("watch_cases", 1)
+	if w.status != "ok" || w.loadErr != "" {
+		if w.variant != "" {
+			watchViolation(wc, 0, "one long-lived process (Load, then edit / Reload / Run): the process dies: "+w.detail)
+			return
+		}
+		count("invalid_programs", 1)
+		fmt.Fprintf(os.Stderr, "invalid watch case: %s %s %s\n", w.status, w.loadErr, w.detail)
+		return
+	}
+	for i, e := range wc.Rounds {
+		if i+1 >= len(w.rounds) {
+			count("invalid_programs", 1)
+			return
+		}
+		evs := w.rounds[i+1]
+		if _, bad := evs["-"]; bad {
+			count("invalid_programs", 1)
+			fmt.Fprintf(os.Stderr, "invalid watch case: edit %d (%s) does not apply\n", i+1, e.What)
+			return
+		}
+		count("watch_rounds", 1)
+		reason, ran := "", false
+		for _, ev := range evs["//:t"] {
+			if ev[0] == "evaluating" {
+				reason, ran = ev[1], true
+			}
+			if ev[0] == "reload-error" || ev[0] == "failed" {
+				watchViolation(wc, i+1, fmt.Sprintf("round %d (%s): %s %s", i+1, e.What, ev[0], ev[1]))
+				return
+			}
+		}
+		want := append([]string{}, e.Expect...)
+		sort.Strings(want)
+		switch {
+		case len(want) == 0 && ran:
+			watchViolation(wc, i+1, fmt.Sprintf("one long-lived process, round %d: after an edit that changes no environment (%s) and Reload the target re-executes with reason %q", i+1, e.What, reason))
+		case len(want) == 0:
+		case !ran:
+			watchViolation(wc, i+1, fmt.Sprintf("one long-lived process, round %d: after the edit (%s) and Reload the target is not re-executed", i+1, e.What))
+		default:
+			got, ok := namedParts(reason)
+			if !ok || strings.Join(got, "|") != strings.Join(want, "|") {
+				watchViolation(wc, i+1, fmt.Sprintf("one long-lived process, round %d: reason %q; the edit of THIS round (%s) changes exactly {%s}", i+1, reason, e.What, strings.Join(want, ", ")))
+			}
+		}
+		hist("reason_outcome", "watch-round")
+	}
 }
 
 // reasonReplay judges one stored case again
 func reasonReplay(raw string, scratch string) {
 	var in struct {
-		Case reasonCase `json:"case"`
+		Case  reasonCase `json:"case"`
+		Watch *watchCase `json:"watch"`
 	}
 	if err := json.Unmarshal([]byte(raw), &in); err != nil {
 		fmt.Fprintln(os.Stderr, err)
 		os.Exit(2)
+	}
+	if in.Watch != nil {
+		judgeWatch(*in.Watch, filepath.Join(scratch, "watch-replay"))
+		return
 	}
 	// same procedure as reasonMode, for one case
 	saved := in.Case
